@@ -197,6 +197,9 @@ class Interp:
                 s.add(c)
             if extra is not None:
                 s.add(extra)
+            if os.environ.get("VERIF_DUMPQ"):
+                with open(os.environ["VERIF_DUMPQ"], "w") as f:
+                    f.write(s.to_smt2())
             r = s.check()
         finally:
             s.pop()
@@ -1936,6 +1939,10 @@ class Interp:
                     break
                 if len(s.frames) <= depth:
                     out.append(s)
+                    if depth == 0 and os.environ.get("MIRSYM_PROGRESS") and len(out) % int(os.environ["MIRSYM_PROGRESS"]) == 0:
+                        ks = sorted(s.decisions)
+                        print("  [progress] %d leaves, work %d, %d decisions, longest key %d chars: ...%s" % (
+                            len(out), len(work), len(ks), max([len(k) for k in ks] or [0]), (max(ks, key=len)[-90:] if ks else "")), flush=True)
                     break
                 if s.steps > self.max_steps:
                     s.status = "budget"
